@@ -67,6 +67,15 @@ def decode_expected(spec, model_entry):
 
 
 def render_decoded(spec, v):
+    """canonical form of what the implementation decoded; an entry of the wrong shape (a list where a number belongs, …) is rendered as such,
+    never raised: it then differs from the model's answer and fails the decoded-slice oracle"""
+    try:
+        return _render_decoded(spec, v)
+    except Exception:  # noqa
+        return ("unrenderable", repr(v)[:200])
+
+
+def _render_decoded(spec, v):
     k = spec["k"]
     if k == "cont":
         return ("num", rnum(v))
